@@ -82,6 +82,8 @@ func checkC17(c *Ctx) {
 	for _, pk := range p.FamilyPkgs("ecc/*/fr/permutation") {
 		if fn := need(pk, "", "Verify"); fn != nil {
 			RequireFacts(c, p, "C17.guard", fn, AcceptNilErr, nil, []Req{
+				{"size-power-of-two", `\.size-1\)&(p1|local:Proof)\.size\) == 0`},
+				{"size>=2", `^2 <= (p1|local:Proof)\.size$`},
 				{"challenge(epsilon)", `^noerr deriveRandomness\(.*,"epsilon",`},
 				{"challenge(omega)", `^noerr deriveRandomness\(.*,"omega",`},
 				{"challenge(eta)", `^noerr deriveRandomness\(.*,"eta",`},
@@ -102,6 +104,8 @@ func checkC17(c *Ctx) {
 	for _, pk := range p.FamilyPkgs("ecc/*/fr/plookup") {
 		if fn := need(pk, "", "VerifyLookupVector"); fn != nil {
 			RequireFacts(c, p, "C17.guard", fn, AcceptNilErr, nil, []Req{
+				{"size-power-of-two", `\.size-1\)&(p1|local:ProofLookupVector)\.size\) == 0`},
+				{"size>=2", `^2 <= (p1|local:ProofLookupVector)\.size$`},
 				{"challenge(beta)", `^noerr deriveRandomness\(.*,"beta",`},
 				{"challenge(gamma)", `^noerr deriveRandomness\(.*,"gamma",`},
 				{"challenge(alpha)", `^noerr deriveRandomness\(.*,"alpha",`},
@@ -128,6 +132,7 @@ func checkC17(c *Ctx) {
 				{"merkle(path of the query)", `^ok VerifyProof\(pr\.h,p1\.Interactions\[\*\]\[\*\]\.MerkleRoot,p1\.Interactions\[\*\]\[\*\]\.ProofSet,`},
 				{"merkle(path of the sibling)", `^ok VerifyProof\(pr\.h,p1\.Interactions\[\*\]\[\*\]\.MerkleRoot,make:\[\]\[\]byte,`},
 				{"final-evaluation", `^ok Element\.Equal\(local:Element,p1\.Evaluation\)$`},
+				{"both-paths-under-the-bound-root", `^ok bytes\.Equal\(p1\.Interactions\[\*\]\[0\]\.MerkleRoot,p1\.Interactions\[\*\]\[1\]\.MerkleRoot\)$`},
 				{"challenge-computed", `^noerr Transcript\.ComputeChallenge\(`},
 			})
 			RequireFacts(c, p, "C17.bind", fn, AcceptNilErr, nil, []Req{
@@ -144,6 +149,7 @@ func checkC17(c *Ctx) {
 			RequireFacts(c, p, "C17.guard", fn, AcceptNilErr, nil, []Req{
 				{"roots-equal", `^ok bytes\.Equal\(p1\.merkleRoot,p2\.Rounds\[0\]\.Interactions\[0\]\[\*\]\.MerkleRoot\)$`},
 				{"merkle-path", `^ok VerifyProof\(pr\.h,p1\.merkleRoot,p1\.ProofSet,.*,p1\.numLeaves\)$`},
+				{"claimed-value-is-the-leaf", `^ok Element\.Equal\(local:Element<-SetBytesCanonical\(p1\.ProofSet\[0\]\),p1\.ClaimedValue\)$|^ok Element\.Equal\(p1\.ClaimedValue,local:Element<-SetBytesCanonical\(p1\.ProofSet\[0\]\)\)$`},
 			})
 		}
 		if fn := need(pk, "radixTwoFri", "VerifyProofOfProximity"); fn != nil {
@@ -155,6 +161,7 @@ func checkC17(c *Ctx) {
 	// ---- Vortex
 	if fn := need("field/koalabear/vortex", "Params", "Verify"); fn != nil {
 		RequireFacts(c, p, "C17.guard", fn, AcceptNilErr, nil, []Req{
+			{"LenEq(uAlpha, codeword)", `^Params\.SizeCodeWord\(pr\) == len\(p0\.Proof\.UAlpha\)$|^len\(p0\.Proof\.UAlpha\) == Params\.SizeCodeWord\(pr\)$`},
 			{"uAlpha(x)=claims(alpha)", `^EvalFextPolyHorner\(p0\.ClaimedValues,p0\.Alpha\) == EvalFextPolyLagrange\(p0\.Proof\.UAlpha,p0\.EvaluationPoint\)#0$`},
 			{"uAlpha-evaluated", `^noerr EvalFextPolyLagrange\(p0\.Proof\.UAlpha,p0\.EvaluationPoint\)$`},
 			{"ReedSolomon(uAlpha)", `^ok Params\.IsReedSolomonCodewords\(pr,p0\.Proof\.UAlpha\)$`},
